@@ -490,4 +490,94 @@ pub mod verif_hooks {
         }
         (b.pos.iter().map(rd_pos).collect(), has)
     }
+
+    /// Looks up the value records of the glyph pair (`first`, `second`) in a PairPos subtable (`data`, either format)
+    /// and calls the private `ValueRecordExt::apply_to_pos` of each record on its own position, unconditionally
+    /// (no `is_empty` test, no flags). Returns per record (new position, the `worked` value the function returned),
+    /// or `None` when the subtable does not parse / has no records for the pair.
+    pub fn pair_records_apply_to_pos(
+        face: &hb_font_t,
+        data: &[u8],
+        first: u16,
+        second: u16,
+        direction: Direction,
+        pos1: P,
+        pos2: P,
+    ) -> Option<((P, bool), (P, bool))> {
+        use ttf_parser::opentype_layout::LookupSubtable;
+        use ttf_parser::GlyphId;
+        let sub = PositioningSubtable::parse(data, 2)?;
+        let records = match sub {
+            PositioningSubtable::Pair(ref pair) => match pair {
+                PairAdjustment::Format1 { sets, coverage } => sets
+                    .get(coverage.get(GlyphId(first))?)?
+                    .get(GlyphId(second))?,
+                PairAdjustment::Format2 {
+                    classes, matrix, ..
+                } => matrix.get((
+                    classes.0.get(GlyphId(first)),
+                    classes.1.get(GlyphId(second)),
+                ))?,
+            },
+            _ => return None,
+        };
+        let mut b = mk_buffer(&[pos1, pos2], 2, direction);
+        let mut ctx = hb_ot_apply_context_t::new(TableIndex::GPOS, face, &mut b);
+        let mut p1 = mk_pos(pos1);
+        let mut p2 = mk_pos(pos2);
+        let w1 = records.0.apply_to_pos(&mut ctx, &mut p1);
+        let w2 = records.1.apply_to_pos(&mut ctx, &mut p2);
+        Some(((rd_pos(&p1), w1), (rd_pos(&p2), w2)))
+    }
+
+    /// `apply_subtable` on a buffer whose clusters, masks, cluster level and buffer flags the caller chooses, so that
+    /// the glyph flags the subtable sets (unsafe_to_break / unsafe_to_concat) can be read back.
+    /// infos: (glyph id, glyph_props, lig_props, cluster, mask); the lookup mask of the apply context is `lookup_mask`
+    /// (a glyph takes part only when its mask has that bit), so that it can be kept apart from the glyph-flag bits.
+    /// Returns (applied, new buffer.idx, positions, masks, scratch_flags).
+    pub fn apply_subtable_flags(
+        face: &hb_font_t,
+        kind: u16,
+        data: &[u8],
+        lookup_props: u32,
+        direction: Direction,
+        buffer_flags: u32,
+        cluster_level: u8,
+        lookup_mask: u32,
+        infos: &[(u32, u16, u8, u32, u32)],
+        pos: &[P],
+        idx: usize,
+    ) -> Option<(bool, usize, Vec<P>, Vec<u32>, u32)> {
+        use ttf_parser::opentype_layout::LookupSubtable;
+        let sub = PositioningSubtable::parse(data, kind)?;
+        let mut b = mk_buffer(pos, infos.len(), direction);
+        b.flags = crate::BufferFlags::from_bits_truncate(buffer_flags);
+        b.cluster_level = match cluster_level {
+            0 => HB_BUFFER_CLUSTER_LEVEL_MONOTONE_GRAPHEMES,
+            1 => HB_BUFFER_CLUSTER_LEVEL_MONOTONE_CHARACTERS,
+            _ => HB_BUFFER_CLUSTER_LEVEL_CHARACTERS,
+        };
+        for (k, (g, gp, lp, cl, m)) in infos.iter().enumerate() {
+            b.info[k].glyph_id = *g;
+            b.info[k].mask = *m;
+            b.info[k].cluster = *cl;
+            b.info[k].set_glyph_props(*gp);
+            b.info[k].set_lig_props(*lp);
+        }
+        b.idx = idx;
+        let applied;
+        {
+            let mut ctx = hb_ot_apply_context_t::new(TableIndex::GPOS, face, &mut b);
+            ctx.lookup_props = lookup_props;
+            ctx.set_lookup_mask(lookup_mask);
+            applied = sub.apply(&mut ctx).is_some();
+        }
+        Some((
+            applied,
+            b.idx,
+            b.pos.iter().map(rd_pos).collect(),
+            b.info.iter().map(|i| i.mask).collect(),
+            b.scratch_flags,
+        ))
+    }
 }
